@@ -950,4 +950,76 @@ theorem applyEntries_reaches_marker' (now : Nat) (m : Entry) (hm : C11.isLeftMar
       rw [hid] at h2
       exact List.mem_append_right _ h2
 
+/-- the actions before `proxyShutdown` in a shutdown schedule are exactly the first three -/
+theorem actions_before_proxy (reached : List String) (P Q : List Action)
+    (h : P ++ Action.proxyShutdown :: Q = shutdownActions reached) :
+    P = [.stopJWKS, .notReady, .upstreamShutdown] := by
+  unfold shutdownActions at h
+  have htail : Action.proxyShutdown ∉ (Action.leaveLocal ::
+      ((reached.take maxLeaveNotified).map Action.pushLeave ++
+        [.gossipClose, .adminShutdown, .waitGoroutines])) := by
+    intro h
+    rcases List.mem_cons.mp h with h | h
+    · cases h
+    · rcases List.mem_append.mp h with h | h
+      · obtain ⟨p, _, hp⟩ := List.mem_map.mp h
+        cases hp
+      · simp at h
+  rcases P with _ | ⟨p1, _ | ⟨p2, _ | ⟨p3, _ | ⟨p4, P'⟩⟩⟩⟩
+  · simp at h
+  · simp at h
+  · simp at h
+  · simp only [List.cons_append, List.nil_append, List.append_assoc, List.cons.injEq] at h
+    obtain ⟨h1, h2, h3, _⟩ := h
+    rw [h1, h2, h3]
+  · exfalso
+    simp only [List.cons_append, List.nil_append, List.append_assoc, List.cons.injEq] at h
+    obtain ⟨_, _, _, _, h5⟩ := h
+    apply htail
+    rw [← h5]
+    simp
+
+/-- the upstream server is shut down before the node stops accepting proxy traffic -/
+theorem cancelled_before_proxy (reached : List String) (n : St) (pre post : List Step)
+    (h : (pre ++ Step.act .proxyShutdown :: post).filterMap Step.action? = shutdownActions reached) :
+    (n.run pre).srv.cancelled = true ∧ (n.run pre).proxyUp = n.proxyUp := by
+  have hP : pre.filterMap Step.action? = [.stopJWKS, .notReady, .upstreamShutdown] := by
+    apply actions_before_proxy reached _ (post.filterMap Step.action?)
+    rw [← h]
+    simp [List.filterMap_append, List.filterMap_cons, Step.action?]
+  constructor
+  · have hmem : Step.act .upstreamShutdown ∈ pre := by
+      have : Action.upstreamShutdown ∈ pre.filterMap Step.action? := by rw [hP]; simp
+      obtain ⟨st, hst, hs⟩ := List.mem_filterMap.mp this
+      cases st with
+      | act a => simp only [Step.action?, Option.some.injEq] at hs; subst hs; exact hst
+      | ev e => simp [Step.action?] at hs
+    obtain ⟨p1, p2, rfl⟩ := List.append_of_mem hmem
+    simp only [St.run, List.foldl_append, List.foldl_cons]
+    exact cancelled_run p2 rfl
+  · have : ∀ (steps : List Step) (m : St), (∀ a ∈ steps.filterMap Step.action?, a ≠ Action.proxyShutdown) →
+        (m.run steps).proxyUp = m.proxyUp := by
+      intro steps
+      induction steps with
+      | nil => intro m _; rfl
+      | cons st steps ih =>
+        intro m hne
+        have h1 : (m.step st).proxyUp = m.proxyUp := by
+          cases st with
+          | ev e => rfl
+          | act a =>
+            cases a with
+            | proxyShutdown => exact absurd rfl (hne .proxyShutdown (by simp [Step.action?]))
+            | _ => rfl
+        have := ih (m.step st) (by
+          intro a ha
+          apply hne
+          cases hs : st.action? with
+          | none => simpa [List.filterMap_cons, hs] using ha
+          | some b => simp [List.filterMap_cons, hs, ha])
+        exact this.trans h1
+    apply this
+    intro a ha hap
+    rw [hP] at ha; subst hap; simp at ha
+
 end Piko.Node
